@@ -3,6 +3,7 @@ import Norad.Lemmas.FontSave
 import Norad.Lemmas.SafePlan
 import Norad.Lemmas.Determined
 import Norad.Lemmas.LayerDir
+import Norad.Lemmas.PlanRuns
 /-!
 # C09 — a saved tree depends only on the font and stays inside the target
 
@@ -195,6 +196,123 @@ theorem api_built_fonts_safe (f : AFont β)
   simp only [Bool.and_eq_true, List.all_eq_true]
   exact ⟨⟨fun l hlm => ⟨(hl l hlm).1, (hl l hlm).2⟩, hd⟩, hi⟩
 
+/-! ### the plan runs to completion -/
+
+/-- the wipe of step 6 and the `create_dir` of step 7 succeed whenever the target's parent chain exists and the target
+    is not a plain file -/
+theorem wipe_and_mkdir_succeed (fs : FS β) (t : APath) (ht : t ≠ [])
+    (hparent : ∀ m, m <+: t.dropLast → m ≠ [] → isDir fs m = true)
+    (htnf : ∀ b, node fs t ≠ some (.file b)) :
+    ∃ fs1 g2, wipe fs t = .ok fs1 ∧ mkdir fs1 (tC t) = .ok g2 ∧
+      ∀ m, m <+: t.dropLast → m ≠ [] → isDir fs1 m = true := by
+  rcases List.eq_nil_or_concat t with rfl | ⟨l, s, rfl⟩ <;> try simp only [List.concat_eq_append] at *
+  · exact absurd rfl ht
+  rw [List.dropLast_concat] at hparent
+  have hloc := locate_normal_ok (fs := fs) (l := l) (s := s) hparent
+  have hloc' : locate fs (tC (l ++ [s])) = .ok (l ++ [s], false) := hloc
+  have hex : existsAt fs (tC (l ++ [s])) = (node fs (l ++ [s])).isSome := by
+    unfold existsAt
+    rw [hloc']
+  have hmk : ∀ g : FS β, (∀ m, m <+: l → m ≠ [] → isDir g m = true) → node g (l ++ [s]) = none →
+      mkdir g (tC (l ++ [s])) = .ok (AbsFS.set g (l ++ [s]) .dir) :=
+    fun g h1 h2 => mkdir_normal_ok (fs := g) (l := l) (s := s) h1 h2
+  cases hn : node fs (l ++ [s]) with
+  | none =>
+    refine ⟨fs, _, ?_, hmk fs hparent hn, by rw [List.dropLast_concat]; exact hparent⟩
+    unfold wipe
+    rw [hex, hn]; rfl
+  | some nd =>
+    cases nd with
+    | file b => exact absurd hn (htnf b)
+    | dir =>
+      have hrm : removeDirAll fs (tC (l ++ [s])) = .ok (removeAll fs (l ++ [s])) := by
+        unfold removeDirAll
+        rw [hloc']
+        simp only [hn]
+      have hkeep : ∀ m, m <+: l → m ≠ [] → isDir (removeAll fs (l ++ [s])) m = true := by
+        intro m hm hne
+        have := hparent m hm hne
+        rw [isDir_iff, node_of_ne_nil _ hne] at this ⊢
+        rw [lookup_removeAll]
+        have hnp : ¬ (l ++ [s]).isPrefixOf m = true := by
+          intro hp
+          have h1 := (List.isPrefixOf_iff_prefix.mp hp).length_le
+          have h2 := hm.length_le
+          simp only [List.length_append, List.length_singleton] at h1
+          omega
+        simp [hnp, this]
+      have hgone : node (removeAll fs (l ++ [s])) (l ++ [s]) = none := by
+        rw [node_of_ne_nil _ (by simp), lookup_removeAll]
+        simp
+      refine ⟨removeAll fs (l ++ [s]), _, ?_, hmk _ hkeep hgone, by rw [List.dropLast_concat]; exact hkeep⟩
+      unfold wipe
+      rw [hex, hn]
+      simp [hrm]
+
+/-- **`plan_runs_to_completion`**: for a well-planned font with safe paths, from ANY well-formed file system in which
+    the validators pass (steps 1–5), the target's parent chain exists and the target is not a plain file, the whole
+    save — wipe, `create_dir`, metainfo … layers, data, images — runs to completion: no effect fails. -/
+theorem plan_runs_to_completion (cfg : Cfg β) (f : AFont β) (fs : FS β) (t : APath)
+    (hw : WellPlanned f) (hs : safePaths f = true) (d i : List (Path.P × β))
+    (hv : validatePhase cfg f fs = .ok (d, i))
+    (ht : t ≠ []) (hparent : ∀ m, m <+: t.dropLast → m ≠ [] → isDir fs m = true)
+    (htnf : ∀ b, node fs t ≠ some (.file b)) (hwf : WF fs) :
+    ∃ fs', saveImpl cfg f fs t = (none, fs') := by
+  obtain ⟨fs1, g2, hwipe, hmk, hpar1⟩ := wipe_and_mkdir_succeed fs t ht hparent htnf
+  obtain ⟨hsd, hsi⟩ := forced_safe hs hv
+  obtain ⟨hfd, hfi⟩ := validatePhase_ok_stores hv
+  have hclean := wipe_mkdir_clean hwf hwipe hmk
+  obtain ⟨_, _, hset, _⟩ := mkdir_tC hmk
+  -- the kinds after `create_dir`
+  have H1 : ∀ m, m <+: t → m ≠ [] → kOf g2 m false := by
+    intro m hm hne
+    have := mkdir_t_dirs hmk m hm hne
+    exact kindAt_dir this
+  have H2 : ∀ q k, kOf g2 q k → t <+: q → q = t := by
+    intro q k hk hq
+    by_cases e : t = q
+    · exact e.symm
+    · have hq0 : q ≠ [] := by intro h; subst h; exact ht (List.prefix_nil.mp hq)
+      unfold kOf kindAt at hk
+      rw [node_of_ne_nil _ hq0, hclean q hq] at hk
+      simp [e] at hk
+  have H3 : ∀ m, m <+: t → ¬ kOf g2 m true := by
+    intro m hm hk
+    by_cases h0 : m = []
+    · subst h0; unfold kOf at hk; rw [kindAt_root] at hk; cases hk
+    · have := H1 m hm h0
+      unfold kOf at hk this
+      rw [this] at hk; cases hk
+  have hruns := planRestN_runs cfg f d i t hw (forceList_keys hfd) (forceList_keys hfi) (kOf g2) H1 H2 H3
+  obtain ⟨g', hg'⟩ := runs_sound _ g2 (kOf g2) (fun _ _ => Iff.rfl) hruns
+  refine ⟨g', ?_⟩
+  unfold saveImpl
+  simp only [hv, hwipe]
+  rw [plan_normal cfg f d i t hs hsd hsi]
+  show runN (planN cfg f d i t) fs1 = (none, g')
+  unfold planN runN
+  simp only [List.map, runEffs, NEff.toEff, runEff, hmk]
+  exact hg'
+
+/-- **`saved_tree_determined_by_font`**: for a well-planned font with safe paths and nothing lazy, saving onto `t` in
+    two arbitrary well-formed file systems (validators pass, parent chain of the target present, target not a plain
+    file) SUCCEEDS in both, leaves the same sub-tree at and below `t` — paths, kinds, bytes — and that sub-tree has
+    exactly the paths `expectedPaths f t`. -/
+theorem saved_tree_determined_by_font (cfg : Cfg β) (f : AFont β) (fsA fsB : FS β) (t : APath)
+    (hw : WellPlanned f) (hs : safePaths f = true) (hd : NoLazy f.data) (hi : NoLazy f.images)
+    (d i : List (Path.P × β)) (hv : validatePhase cfg f fsA = .ok (d, i)) (ht : t ≠ [])
+    (hpA : ∀ m, m <+: t.dropLast → m ≠ [] → isDir fsA m = true) (hfA : ∀ b, node fsA t ≠ some (.file b)) (hwA : WF fsA)
+    (hpB : ∀ m, m <+: t.dropLast → m ≠ [] → isDir fsB m = true) (hfB : ∀ b, node fsB t ≠ some (.file b)) (hwB : WF fsB) :
+    ∃ fsA' fsB', saveImpl cfg f fsA t = (none, fsA') ∧ saveImpl cfg f fsB t = (none, fsB') ∧
+      (∀ q, t <+: q → lookup fsA' q = lookup fsB' q) ∧
+      ∀ q k, t <+: q → (kindAt fsA' q = some k ↔ (q, k) ∈ expectedPaths f t) := by
+  have hvB : validatePhase cfg f fsB = .ok (d, i) := by
+    rw [← save_effects_depend_only_on_font cfg f fsA fsB hd hi]; exact hv
+  obtain ⟨fsA', hA⟩ := plan_runs_to_completion cfg f fsA t hw hs d i hv ht hpA hfA hwA
+  obtain ⟨fsB', hB⟩ := plan_runs_to_completion cfg f fsB t hw hs d i hvB ht hpB hfB hwB
+  exact ⟨fsA', fsB', hA, hB, save_tree_depends_only_on_font cfg f fsA fsB fsA' fsB' t hs hd hi hwA hwB hA hB,
+    exactly_the_determined_files cfg f fsA fsA' t hs hwA hA⟩
+
 /-! ### the load side: for a loaded font only glif paths need the guard -/
 
 /-- **Every layer of a font returned by `loadImpl` has a directory that is one normal component** (the `file_name()` of
@@ -295,6 +413,19 @@ theorem save_frame_counterexample_contents_value :
 /-- both counterexample fonts are rejected by the guard, the base font is not (the guard is not vacuous) -/
 theorem guard_separates :
     safePaths keyFont = false ∧ safePaths glifFont = false ∧ safePaths baseFont = true := by decide
+
+/-- the guard of `plan_runs_to_completion` is satisfiable: the base font (and a font with a glyph) is well-planned -/
+example : WellPlanned baseFont where
+  infoOk := Or.inl (by decide)
+  objLibs := by decide
+  layerDir := by
+    intro l hl; simp [baseFont] at hl; subst hl; decide
+  layersDistinct := by simp [baseFont]
+  glyphs := by
+    intro l hl; simp [baseFont] at hl; subst hl; intro e he; cases he
+  dataKeys := ⟨by simp [baseFont], by intro k hk; simp [baseFont] at hk⟩
+  imageKeys := by
+    intro k hk; simp [baseFont] at hk
 
 /-- the saved tree of the base font, as the model computes it: exactly the determined files -/
 example : (saveImpl cfgN baseFont outer target).1 = none ∧
